@@ -390,3 +390,18 @@ Theorem c08_current_code_resumption_closed : forall lv r s t h id msgs,
   link_r code_fx lv r s t h id msgs = (link code_fx lv r s h id msgs, false).
 Proof. exact current_code_resumption_closed. Qed.
 Print Assumptions c08_current_code_resumption_closed.
+
+(* independence of the verifier's clauses for the rule /repo carries (F09
+   repaired): on the dialling side "CN decodes" (6) is now implied by the
+   expected-key clause (4); all others remain independent, on both sides *)
+Theorem c08_each_check_independent_f09_repaired :
+  let fx := mkfixes true false true false in
+  forall i c, nth_error independence_witnesses i = Some c ->
+    (i <> 4 -> fails_only i (clause_list fx Ed25519 0 0 None c) = true) /\
+    (i <> 6 -> fails_only i (clause_list fx Ed25519 0 0 (Some 2) c) = true) /\
+    (i = 6 -> clause_list fx Ed25519 0 0 (Some 2) c =
+              [true; true; true; true; false; true; false; true; true; true; true]) /\
+    (i = 4 \/ verify fx Ed25519 0 0 None [RawOne c] <> Accept) /\
+    verify fx Ed25519 0 0 (Some 2) [RawOne c] <> Accept.
+Proof. exact each_check_independent_f09_repaired. Qed.
+Print Assumptions c08_each_check_independent_f09_repaired.
